@@ -1,10 +1,10 @@
 package main
 
 import (
-	"strings"
 	"encoding/json"
 	"fmt"
 	"sort"
+	"strings"
 
 	"verifharness/internal/gen"
 	"verifharness/internal/real"
